@@ -119,6 +119,18 @@ Definition run (x : sx) : sx :=
                                end in
       L [reduce (hd (SRes Desync) rs); reduce (last rs (SRes Desync));
          A (if nth (Z.to_nat which) client_default_ctx_clears_ignore_eof false then 0 else 1)]
+  (* the same through the asynchronous client: full pump model, reduced to first / last report *)
+  | L (A 4 :: A std :: L ops :: L answers :: A which :: _) =>
+      do ops' <- map_opt dec_op ops;
+      do ans' <- map_opt dec_ans answers;
+      let '(ob, rest) := run_ops (Z.eqb std 1) ops' tstate0 ans' in
+      let rs := filter (fun o => match o with ORes _ => true | _ => false end) ob in
+      let reduce (o : obs) := match o with
+                              | ORes (Ret (S _)) => L [A 1; A 0; A 1]
+                              | o' => enc_obs o'
+                              end in
+      L [reduce (hd (ORes Desync) rs); reduce (last rs (ORes Desync));
+         A (if nth (Z.to_nat which) client_default_ctx_clears_ignore_eof false then 0 else 1)]
   | L [A 3; A which] =>
       L [A (if nth (Z.to_nat which) client_default_ctx_clears_ignore_eof false then 0 else 1)]
   | _ => bad_input
